@@ -67,8 +67,9 @@ def plan(tier, seed):
         for ck in ('SystemClock', 'AppClock', 'TempoClock'):
             shards.append(dict(name=f'park-{ck}', mode='rt', kind='park', clock=ck,
                                max_cases=90, secs=45, hard_timeout=150))
-        shards.append(dict(name='clear0', mode='rt', kind='clear', rounds=3,
-                           hard_timeout=90))
+        for k in range(2):      # two rounds each (rounds 0-1 and 2-3)
+            shards.append(dict(name=f'clear{k}', mode='rt', kind='clear', rounds=2,
+                               first_round=2 * k, hard_timeout=120))
         for part in range(3):
             shards.append(dict(name=f'mapchange{part}', mode='rt', kind='mapchange', rounds=2,
                                part=part, parts=3, secs=40, hard_timeout=120))
@@ -263,6 +264,13 @@ class H:
         step = plan[k] if k < len(plan) else {'ret': None}
         for ch in step.get('children', ()):
             self.sched_from_task(rec, k, logical, ch)
+        if step.get('clear'):
+            # the task clears its own clock (everything pending is cancelled)
+            try:
+                rec['clock'].clear()
+                self.log.add('clear', self.cname(rec['clock']), 'task')
+            except Exception as e:
+                self.errors.append(('clear-in-task', repr(e)))
         tempo = step.get('tempo')
         if tempo is not None:
             tc, val = tempo
@@ -1248,7 +1256,7 @@ def run_clear(spec, acc):
     h.start_hang_monitor(acc, spec)
     main, clk = h.main, h.clk
     vid = [0]
-    for rnd in range(cfg['rounds']):
+    for rnd in range(cfg.get('first_round', 0), cfg.get('first_round', 0) + cfg['rounds']):
         for ck in ('SystemClock', 'AppClock', 'TempoClock', 'TempoClock-stop',
                    'TempoClock-stop2'):
             ck, ck_full = ck.rstrip('2'), ck
@@ -1320,12 +1328,26 @@ def run_clear(spec, acc):
                                       {'round': rnd})
                 elif clock.running():
                     acc.violation('C08/stop-does-not-stop/TempoClock', {'round': rnd})
+            elif rnd % 2:
+                # clear() called by a task of the clock itself, which then ends
+                # normally or fails; tasks scheduled afterwards go on as usual
+                # (they re-schedule themselves by the deltas they return)
+                acc.count('clear_called_from_a_task_of_the_clock')
+                clr = h.do_sched(clock, 'rel', 0, [rng.choice([
+                    {'clear': True, 'ret': None}, {'clear': True, 'raise': 'ValueError'},
+                    {'clear': True, 'ret': 'x'}])], rng.choice(['tk', 'fn']), ('thread', 'c'))
+                t0 = time.time()
+                while not clr['nwakes'] and time.time() - t0 < 3:
+                    time.sleep(0.002)
+                time.sleep(0.01)
             else:
                 clock.clear()
             c1 = h.log.seq()
             after = []
             if ck != 'TempoClock-stop':
-                after = [h.do_sched(clock, 'rel', 0.01, [{'ret': None}], 'tk',
+                after = [h.do_sched(clock, 'rel', 0.01, [{'ret': 0.01}, {'ret': 0.005},
+                                                         {'ret': None}],
+                                    rng.choice(['tk', 'fn', 'rout']),
                                     ('thread', 'a')) for _ in range(3)]
             else:
                 # the process-wide clocks are not affected by stopping a TempoClock
@@ -1333,7 +1355,9 @@ def run_clear(spec, acc):
                 after = [h.do_sched(c2, 'rel', 0.01, [{'ret': None}], 'tk', ('thread', 'a'))
                          for c2 in (clk.SystemClock, clk.AppClock)
                          + ((clock,) if clock.running() else ())]
-            time.sleep(0.75)
+            # (after a clear from a task the self-re-scheduling tasks are watched for
+            # longer than the bounded-progress limit: a lost re-queue must show)
+            time.sleep(0.75 if not (rnd % 2 and ck != 'TempoClock-stop') else LATE_PARK + 0.3)
             cancelled = {}
             for r in before:
                 cancelled[r['tid']] = 'cleared'
